@@ -1,6 +1,7 @@
 """C12 - cJSON_Compare decides semantic equality.  R5 (own equality relation) on the model trees;
 symmetry and purity are checked in-process by the driver's `cmpx`."""
 import math
+from fractions import Fraction
 import random
 import struct
 from . import treegen
@@ -15,6 +16,10 @@ def plan(prop, tier):
     n = 16 if q else 64
     per = 190 if q else 5000
     return ['asan', 'plain', 'efence'], [('cmp', SEED * 1000 + i, per) for i in range(n)] + [('deep', 0, 0)]
+
+
+# magnitudes at which a relative tolerance underflows or an absolute one swallows everything
+TINY = [5e-324, 1e-323, 1e-310, 2e-310, 3e-320, 2.2250738585072014e-308, 1.1125369292536007e-308, 2.5e-300, 1e-200, 6.626e-34, 1.054e-34, 1e-20, 3e-20, 1e-17, 2e-16]
 
 
 class NoClaim(Exception):
@@ -39,7 +44,11 @@ def r5(a, b, cs):
             return True
         m = max(abs(x), abs(y))
         if m < 1e-290:
-            raise NoClaim()       # tolerance underflows: boundary not claimed
+            # the tolerance underflows: the boundary itself is not claimed, but values further apart
+            # than four times the tolerance (in exact arithmetic) are unequal whatever the rounding
+            if abs(Fraction(x) - Fraction(y)) > 4 * Fraction(m) * Fraction(EPS):
+                return False
+            raise NoClaim()
         return abs(x - y) <= m * EPS
     if k in 'sw':
         return a.sval == b.sval
@@ -115,6 +124,12 @@ def mutants(rng, a):
         num_edit('num->nan', lambda x, b: math.nan)
         num_edit('num+1', lambda x, b: x + 1.0)
         num_edit('num->max', lambda x, b: 1.7976931348623157e308)
+        num_edit('num*2', lambda x, b: x * 2.0)
+        num_edit('num/2', lambda x, b: x / 2.0)
+        num_edit('num*3', lambda x, b: x * 3.0)
+        num_edit('num->0', lambda x, b: 0.0)
+        num_edit('num->tiny', lambda x, b: rng.choice(TINY))
+        num_edit('num->-tiny', lambda x, b: -rng.choice(TINY))
 
     def type_flip(ns):
         m = pick(ns, lambda q: True)
@@ -318,6 +333,12 @@ def run_shard(shard_prop, bins, workdir, tier):
             # number-only trees: the tolerance boundary is where Compare is subtle
             a = Node('a')
             a.kids = [Node.num(treegen.hostile_double(rng, True)) for _ in range(rng.randrange(1, 5))]
+        if rng.random() < 0.2:
+            # zero and magnitudes far below 1 (down to subnormals): both sides of a mutant pair are tiny
+            for n in all_nodes(a):
+                if n.kind == 'n':
+                    nn = Node.num(rng.choice(TINY + [0.0, -0.0]) * rng.choice([1, 1, -1]))
+                    n.bits, n.ival = nn.bits, nn.ival
         # raw items take part in comparison like strings (byte equality), but are a type of their own
         for n in all_nodes(a):
             if n.kind == 's' and not n.ref and rng.random() < 0.15:
